@@ -5,16 +5,16 @@
 set -u
 VERIF_DIR="$(cd "$(dirname "$0")" && pwd)"
 mode="${1:-own}"
-ALL="C01,C02,C03,C04,C05,C06,C07,C08,C09,C10,C11,C12,C13,C14,C15,C16,C17,C18,C19,C20"
-out="$VERIF_DIR/seeded/MATRIX.txt"; : > "$out.tmp"
-for d in "$VERIF_DIR"/seeded/C*/; do
-  name=$(basename "$d"); prop=${name%%-*}
-  props=$prop; [ "$mode" = all ] && props=$ALL
+export VERIF_DIR mode
+out="$VERIF_DIR/seeded/MATRIX.txt"
+ls -d "$VERIF_DIR"/seeded/C*/ | xargs -P "${SEED_JOBS:-6}" -I{} sh -c '
+  d={}; name=$(basename "$d"); prop=${name%%-*}
+  props=$prop; [ "$mode" = all ] && props=all
   res=$("$VERIF_DIR/evalpatch.sh" "$d/patch.diff" "$props" 2>&1)
-  if echo "$res" | grep -q "EVAL-ERROR"; then echo "$name  PATCH-DOES-NOT-APPLY" >> "$out.tmp"; continue; fi
-  caught=$(echo "$res" | grep "^VIOLATED" | sed -E 's/^VIOLATED (C[0-9]+) clause=([^ ]+) rule=([^ ]+) .*/\1:\2:\3/' | sort -u | tr '\n' ' ')
+  if echo "$res" | grep -q "EVAL-ERROR"; then echo "$name  PATCH-DOES-NOT-APPLY"; exit 0; fi
+  caught=$(echo "$res" | grep "^VIOLATED" | grep -v "^VIOLATED DBG" | sed -E "s/^VIOLATED (C[0-9]+) clause=([^ ]+) rule=([^ ]+) .*/\1:\2:\3/" | sort -u | tr "\n" " ")
   own=$(echo "$res" | grep -c "^VIOLATED $prop ")
   if [ "$own" -gt 0 ]; then v=CAUGHT; elif [ -n "$caught" ]; then v=CAUGHT-BY-OTHER; else v=MISSED; fi
-  echo "$name  $v  $caught" >> "$out.tmp"
-done
+  echo "$name  $v  $caught"
+' | sort > "$out.tmp"
 mv "$out.tmp" "$out"; cat "$out"
